@@ -638,6 +638,12 @@ func (v *fnVC) trCall(x *CallE, env *Env) (T, types.Type) {
 		t, ty := v.tr(x.Args[0], env)
 		env.inOld = saved
 		return t, ty
+	case "atentry": // atentry(e): e in the state in which the function under check was entered (at-call clauses)
+		savedIn, savedOld := env.inOld, env.old
+		env.inOld, env.old = true, nil
+		t, ty := v.tr(x.Args[0], env)
+		env.inOld, env.old = savedIn, savedOld
+		return t, ty
 	case "caller": // caller(x): inside an at-call clause, the calling function's variable x at the call
 		if id, ok := x.Args[0].(*Ident); ok && env.callerNames != nil {
 			if sv, ok := env.callerNames[id.Name]; ok {
